@@ -764,6 +764,13 @@ theorem setName_names_counterexample : Inv w0 ∧ ¬ NodeNames (setPropsNT (.use
 to ServicePort has no peer -/
 theorem setType_sp_counterexample : Inv w1 ∧ ¬ SpPeer (setPropsNT (.user "i1") [.ok "Type" "ServicePort"] w1).2 := by decide
 
+set_option maxRecDepth 8000 in
+/-- known finding `C07:names-unique:ConnectionPoint-in-NetworkService:peer`: a service peered with itself gets two ServicePorts of
+one name (the structural invariant `InvS` survives: `inv_xop`) -/
+theorem peer_self_names_counterexample : Inv w1 ∧ CoveredSX w1 (.peer .experiment 0 (.user "s") "s1" [] (some ⟨.user "s", "s1", []⟩) []) ∧
+    InvS (peer .experiment 0 (.user "s") "s1" [] (some ⟨.user "s", "s1", []⟩) [] w1).2 ∧
+    ¬ CpNames (peer .experiment 0 (.user "s") "s1" [] (some ⟨.user "s", "s1", []⟩) [] w1).2 := by decide
+
 /-- keywords other than `name` / `type` (what `Topo.setProps` models, and what `inv_setProps` is about) do what `setProps` does -/
 theorem setPropsNT_eq_setProps (nid : Nid) (k v : String) (hk : k ≠ "Name") (ht : k ≠ "Type") (s : Topo) :
     (setPropsNT nid [.ok k v] s).2 = (setProps nid [.ok k v] s).2 := by
